@@ -64,7 +64,7 @@ def correspondence(ctx):
     ctx.sample({"forced_steppers": KOLM, "domain_extents": [2 * np.pi, 1.0, 5.0]})
 
 
-def probe_laminar(dim, L, N, m, gamma, nu, drag, order, dt, steps, general=False):
+def probe_laminar(dim, L, N, m, gamma, nu, drag, order, dt, steps, general=False, cscale=1.0):
     import jax.numpy as jnp
     import exponax as ex
     s = 2 * np.pi / L
@@ -74,10 +74,12 @@ def probe_laminar(dim, L, N, m, gamma, nu, drag, order, dt, steps, general=False
     if dim == 2:
         if general:
             st = ex.stepper.generic.GeneralVorticityConvectionStepper(2, L, N, dt, linear_coefficients=(drag / 2, 0.0, nu),
-                                                                      injection_mode=m, injection_scale=gamma, order=order)
+                                                                      injection_mode=m, injection_scale=gamma, order=order,
+                                                                      vorticity_convection_scale=cscale)
         else:
+            # the laminar profile carries no convection, so the documented solution does not depend on the convection scale
             st = ex.stepper.KolmogorovFlowVorticity(2, L, N, dt, diffusivity=nu, drag=drag, injection_mode=m,
-                                                    injection_scale=gamma, order=order)
+                                                    injection_scale=gamma, order=order, convection_scale=cscale)
         u = jnp.zeros((1, N, N))
         g = np.asarray(ex.make_grid(2, L, N))
         want = (-m * s * gamma * amp * np.cos(m * s * g[1]))[None]
@@ -121,8 +123,11 @@ def oracle(ctx, deep):
                     m = int(rng.integers(1, max(2, N // 3)))
                     gamma, nu, drag = float(rng.uniform(0.3, 1.5)), float(rng.uniform(0.005, 0.05)), float(rng.uniform(-0.2, -0.01))
                     dt, steps = float(rng.choice([0.01, 0.1, 0.5])), int(rng.integers(1, 8))
+                    if rng.uniform() < 0.3:
+                        gamma = -gamma
                     for general in ([False, True] if dim == 2 else [False]):
-                        r = probe_laminar(dim, L, N, m, gamma, nu, drag, order, dt, steps, general)
+                        cscale = float(rng.choice([1.0, -1.0, 2.0, 0.4])) if dim == 2 else 1.0
+                        r = probe_laminar(dim, L, N, m, gamma, nu, drag, order, dt, steps, general, cscale)
                         ctx.count(("oracle_laminar", dim, round(L, 3), N, order, general))
                         if not r["ok"]:
                             nm = ("GeneralVorticityConvectionStepper" if general else "KolmogorovFlowVorticity") if dim == 2 else "KolmogorovFlowVelocity"
